@@ -510,6 +510,10 @@ def is_full_slice(n):
 def subscript_load(eng, st, base, sl, node):
     k = base.k
     head = k[0] if isinstance(k, tuple) else k
+    if head == 'stack':     # stacked arrays are modelled as the list they were built from
+        base = Val(('list', k[1]), base.t)
+        k = base.k
+        head = 'list'
     if head == 'tuple' or head == 'pylist':
         iv = eng.ev(sl, st)
         i = z3.simplify(to_int(iv))
